@@ -62,14 +62,16 @@ class C04(Prop):
     ASSUMPTIONS = ["default composer options (write_blackbox=True); C16 covers the options",
                    "undefined port directions are written as inout (documented); the VERILOG.primitive "
                    "flag is not part of the comparison"]
-    N = {"quick": 1600, "thorough": 24000}
+    N = {"quick": 4800, "thorough": 60000}
     CASE_TIMEOUT_S = 120
 
     def strategy(self, tier):
         big = tier == "thorough"
         return st.fixed_dictionaries({
             "design": gen_verilog.designs(max_mods=5 if big else 4, max_insts=5 if big else 4),
-            "transform": st.sampled_from(TRANSFORMS)})
+            "transform": st.sampled_from(TRANSFORMS),
+            # writer option: parameters as defparam statements instead of #(...) maps
+            "defparam": st.integers(0, 3).map(lambda v: v == 0)})
 
     def fixed_cases(self, tier):
         limit = 10000 if tier == "quick" else 10 ** 9
@@ -138,7 +140,11 @@ class C04(Prop):
         with tempfile.TemporaryDirectory() as td:
             path = os.path.join(td, "out.v")
             try:
-                sdn.compose(nl, path)
+                if case.get("defparam"):
+                    res.label("option-defparam")
+                    sdn.compose(nl, path, defparam=True)
+                else:
+                    sdn.compose(nl, path)
             except Exception as e:  # noqa
                 sig = "C04:compose-raises:%s:%s" % (type(e).__name__, tr)
                 if tr == "flatten" and "multiple cables appear to be connected to a single assign" not in str(e):
